@@ -29,7 +29,7 @@ the core drops playback tests labelled as cover witnesses).
 """
 from vlib.core import Family, Program, Harness
 
-# (Trait, method, operator symbol, opcode constant)
+# (Trait, method, operator symbol)
 ADD_OPS = [("Add", "add", "+"), ("Sub", "sub", "-"), ("BitAnd", "bitand", "&"), ("BitOr", "bitor", "|"),
            ("BitXor", "bitxor", "^")]
 MUL_OPS = [("Mul", "mul", "*"), ("Div", "div", "/"), ("Rem", "rem", "%"), ("Shr", "shr", ">>"), ("Shl", "shl", "<<")]
@@ -134,6 +134,25 @@ macro_rules! probe {
     };
 }
 
+/// Fixed-size sink used to observe the `Display` text of the error values (their operation name is a private field).
+pub struct Sink { pub b: [u8; 48], pub n: usize }
+impl core::fmt::Write for Sink {
+    fn write_str(&mut self, s: &str) -> core::fmt::Result {
+        for &c in s.as_bytes() {
+            if self.n >= 48 { return Err(core::fmt::Error); }
+            self.b[self.n] = c;
+            self.n += 1;
+        }
+        Ok(())
+    }
+}
+/// `e` displays exactly as `expect`
+pub fn displays_as<D: core::fmt::Display>(e: &D, expect: &str) -> bool {
+    use core::fmt::Write;
+    let mut w = Sink { b: [0; 48], n: 0 };
+    write!(w, "{}", e).is_ok() && w.n == expect.len() && w.b[..w.n] == *expect.as_bytes()
+}
+
 probe!(TagA, 0x0000_000a);
 probe!(TagB, 0x0000_0b00);
 probe!(TagC, 0x000c_0000);
@@ -146,10 +165,10 @@ def acc(kind, i):
     return str(i) if kind == "tuple" else NAMES[i]
 
 
-def body_decl(kind, fields, pub="pub "):
+def body_decl(kind, fields, pub="pub ", ty="Tag%s"):
     if kind == "tuple":
-        return "(" + ", ".join("%sTag%s" % (pub, f) for f in fields) + ")"
-    return " { " + ", ".join("%s%s: Tag%s" % (pub, NAMES[i], f) for i, f in enumerate(fields)) + " }"
+        return "(" + ", ".join(pub + ty % f for f in fields) + ")"
+    return " { " + ", ".join("%s%s: %s" % (pub, NAMES[i], ty % f) for i, f in enumerate(fields)) + " }"
 
 
 def forall_fields(kind, fields, fmt):
@@ -159,11 +178,13 @@ def forall_fields(kind, fields, fmt):
 
 # ----------------------------------------------------------------------------------------------- structs
 
-def struct_program(kind, fields, group, with_contract=False, with_control=False):
-    """group in add | mulfwd | mulscalar | unary"""
-    key = "s%s_%s_%s" % ("t" if kind == "tuple" else "n", "".join(fields).lower(), group)
+def struct_program(kind, fields, group, with_contract=False, with_control=False, generic=False):
+    """group in add | mulfwd | mulscalar | unary.  generic: `struct G<PA, PB>(PA, PB, PA)` used at `T = G<TagA, TagB>`"""
+    key = "s%s%s_%s_%s" % ("t" if kind == "tuple" else "n", "g" if generic else "", "".join(fields).lower(), group)
     derives, attrs, posts, proofs, hs = [], [], [], [], []
-    decl_fields = body_decl(kind, fields)
+    params = sorted(set(fields))
+    ctor = "G" if generic else "T"
+    decl_fields = body_decl(kind, fields, ty="P%s" if generic else "Tag%s")
     ops = ADD_OPS if group == "add" else MUL_OPS
     fnbase = "derive_more-generated <T as %s>::%s"
 
@@ -200,9 +221,9 @@ def struct_program(kind, fields, group, with_contract=False, with_control=False)
         # Sum (needs Add) / Product (needs Mul<Self>)
         tr, m, optr, opm = ("Sum", "sum", "Add", "add") if group == "add" else ("Product", "product", "Mul", "mul")
         derives.append(tr)
-        ident = ("T(" + ", ".join("<Tag%s as core::iter::%s>::%s(core::iter::empty::<Tag%s>())" % (f, tr, m, f) for f in fields) + ")") \
+        ident = (ctor + "(" + ", ".join("<Tag%s as core::iter::%s>::%s(core::iter::empty::<Tag%s>())" % (f, tr, m, f) for f in fields) + ")") \
             if kind == "tuple" else \
-            ("T { " + ", ".join("%s: <Tag%s as core::iter::%s>::%s(core::iter::empty::<Tag%s>())" % (NAMES[i], f, tr, m, f)
+            (ctor + " { " + ", ".join("%s: <Tag%s as core::iter::%s>::%s(core::iter::empty::<Tag%s>())" % (NAMES[i], f, tr, m, f)
                                 for i, f in enumerate(fields)) + " }")
         posts.append('''/// the field-wise empty %(m)s
 pub fn identity_%(m)s() -> T { %(ident)s }
@@ -291,8 +312,11 @@ pub fn sub_contract(a: T, b: T) -> T { <T as core::ops::Sub>::sub(a, b) }
     }''' % dict(f=f0))
         hs.append(Harness("control_swapped_operands", "deliberately false post-condition (operands swapped) must FAIL", kind="negative_control"))
 
-    title = "#[derive(%s)] %sstruct T%s" % (", ".join(derives), " ".join(attrs) + (" " if attrs else ""),
-                                           body_decl(kind, fields, pub="") + (";" if kind == "tuple" else ""))
+    gparams = "<%s>" % ", ".join("P" + f for f in params) if generic else ""
+    galias = "pub type T = G<%s>;" % ", ".join("Tag" + f for f in params) if generic else ""
+    title = "#[derive(%s)] %sstruct %s%s%s%s" % (", ".join(derives), " ".join(attrs) + (" " if attrs else ""), ctor, gparams,
+                                               body_decl(kind, fields, pub="", ty="P%s" if generic else "Tag%s") + (";" if kind == "tuple" else ""),
+                                               (" used at " + galias[9:-1]) if generic else "")
     src = '''
 use crate::common::*;
 
@@ -300,7 +324,8 @@ use crate::common::*;
 #[cfg_attr(kani, derive(kani::Arbitrary))]
 #[derive(%(derives)s)]
 %(attrs)s
-pub struct T%(decl)s%(semi)s
+pub struct %(ctor)s%(gparams)s%(decl)s%(semi)s
+%(galias)s
 
 %(posts)s
 %(contract)s
@@ -311,7 +336,72 @@ mod proofs {
     // PLAYBACK-INSERTION-POINT
 }
 ''' % dict(derives=", ".join(derives), attrs="\n".join(attrs), decl=decl_fields, semi=";" if kind == "tuple" else "",
-           posts="\n".join(posts), contract=contract, proofs="\n".join(proofs))
+           posts="\n".join(posts), contract=contract, proofs="\n".join(proofs), ctor=ctor, gparams=gparams, galias=galias)
+    return Program(key, title, src, hs)
+
+
+def sum_custom_program(kind):
+    """Sum/Product over a type whose own Add/Mul is hand-written and deliberately NOT field-wise: the derive must fold with
+    the TYPE's operator (property statement), it must not sum the fields separately."""
+    key = "s%s_aa_sumprod_customop" % ("t" if kind == "tuple" else "n")
+    f0, f1 = acc(kind, 0), acc(kind, 1)
+    mk = (lambda a, b: "T(%s, %s)" % (a, b)) if kind == "tuple" else (lambda a, b: "T { x: %s, y: %s }" % (a, b))
+    posts, proofs, hs = [], [], []
+    for tr, m, optr, opm in (("Sum", "sum", "Add", "add"), ("Product", "product", "Mul", "mul")):
+        e = "<TagA as core::iter::%s>::%s(core::iter::empty::<TagA>())" % (tr, m)
+        posts.append('''pub fn identity_%(m)s() -> T { %(ident)s }
+/// `%(tr)s`: equals folding the first `n` items with the type's own `%(optr)s` starting from the field-wise empty %(m)s
+pub fn post_%(m)s(items: &[T; 3], n: usize, r: &T) -> bool {
+    let mut acc = identity_%(m)s();
+    if n > 0 { acc = <T as core::ops::%(optr)s>::%(opm)s(acc, items[0]); }
+    if n > 1 { acc = <T as core::ops::%(optr)s>::%(opm)s(acc, items[1]); }
+    if n > 2 { acc = <T as core::ops::%(optr)s>::%(opm)s(acc, items[2]); }
+    *r == acc
+}''' % dict(m=m, tr=tr, optr=optr, opm=opm, ident=mk(e, e)))
+        proofs.append('''    #[kani::proof]
+    fn ob_%(m)s() {
+        let items: [T; 3] = kani::any();
+        let n: usize = kani::any();
+        kani::assume(n <= 3);
+        let r = <T as core::iter::%(tr)s>::%(m)s(items.into_iter().take(n));
+        assert!(post_%(m)s(&items, n, &r), "post_%(m)s");
+        kani::cover!(n == 0, "empty iterator");
+        kani::cover!(n == 3, "three items");
+    }''' % dict(m=m, tr=tr))
+        hs.append(Harness("ob_" + m, "forall items: [T;3], n <= 3. %s(items[..n]) == fold(items[..n], field-wise empty %s, T's hand-written %s::%s)" % (m, m, optr, opm),
+                          bounded="iterator length <= 3", fn="derive_more-generated <T as %s>::%s" % (tr, m), cover_min=2))
+    title = "#[derive(Sum, Product)] struct T%s with hand-written, non-field-wise Add and Mul" % (
+        body_decl(kind, "AA", pub="") + (";" if kind == "tuple" else ""))
+    src = '''
+use crate::common::*;
+
+#[derive(Clone, Copy, PartialEq, Debug)]
+#[cfg_attr(kani, derive(kani::Arbitrary))]
+#[derive(Sum, Product)]
+pub struct T%(decl)s%(semi)s
+
+/// hand-written and deliberately not field-wise (the two fields cross) and not commutative
+impl core::ops::Add for T {
+    type Output = T;
+    fn add(self, r: T) -> T { %(addv)s }
+}
+impl core::ops::Mul for T {
+    type Output = T;
+    fn mul(self, r: T) -> T { %(mulv)s }
+}
+
+%(posts)s
+
+#[cfg(kani)]
+mod proofs {
+    use super::*;
+%(proofs)s
+    // PLAYBACK-INSERTION-POINT
+}
+''' % dict(decl=body_decl(kind, "AA"), semi=";" if kind == "tuple" else "",
+           addv=mk("self.%s + r.%s" % (f0, f1), "r.%s - self.%s" % (f0, f1)),
+           mulv=mk("self.%s * r.%s" % (f1, f0), "self.%s / r.%s" % (f0, f1)),
+           posts="\n".join(posts), proofs="\n".join(proofs))
     return Program(key, title, src, hs)
 
 
@@ -324,7 +414,7 @@ def V(name, kind="unit", fields=""):
 
 ENUMS = {
     # tuple, named and unit variants; A and D have the same field types (a confusion of variants would type-check)
-    "mixed": [V("A", "tuple", "A"), V("B", "tuple", "AB"), V("C", "named", "AA"), V("D", "tuple", "A"), V("U"), V("W")],
+    "mixed": [V("A", "tuple", "A"), V("B", "tuple", "ABA"), V("C", "named", "AA"), V("D", "tuple", "A"), V("U"), V("W")],
     "nounit": [V("A", "tuple", "A"), V("B", "named", "AB"), V("C", "tuple", "A")],
     "single": [V("Only", "tuple", "AB")],
     "tuples": [V("A", "tuple", "AA"), V("B", "tuple", "AA"), V("C", "tuple", "ABC")],
@@ -360,7 +450,17 @@ def variant_any(v):
     return "E::%s { %s }" % (name, ", ".join("%s: kani::any()" % NAMES[i] for i in range(len(fields))))
 
 
-def enum_program(ename, group):
+def variant_concrete(v, base):
+    name, kind, fields = v
+    vals = ["Tag%s(%d)" % (f, base + i) for i, f in enumerate(fields)]
+    if kind == "unit":
+        return "E::" + name
+    if kind == "tuple":
+        return "E::%s(%s)" % (name, ", ".join(vals))
+    return "E::%s { %s }" % (name, ", ".join("%s: %s" % (NAMES[i], x) for i, x in enumerate(vals)))
+
+
+def enum_program(ename, group, error_text=False):
     """group in add | mulfwd | unary"""
     variants = ENUMS[ename]
     key = "e_%s_%s" % (ename, group)
@@ -409,6 +509,23 @@ pub fn post_%(m)s(a: E, b: E, r: &Result<E, BinaryError>) -> bool {
     }''' % dict(m=m, tr=tr, covers="\n".join(covers)))
             hs.append(Harness("ob_" + m, "forall a b: E (variants symbolic). a %s b == Ok(field-wise) | Err(Unit) | Err(Mismatch) as the variants dictate" % sym,
                               fn=fnbase % (tr, m), cover_min=len(covers)))
+            # the errors name the operation (operation_name is private: observed through Display, concrete operands)
+            checks = []
+            units = [v for v in variants if v[1] == "unit"]
+            if multi:
+                checks.append('        match <E as core::ops::%s>::%s(%s, %s) { Err(e) => assert!(displays_as(&e, "Trying to %s() mismatched enum variants"), "mismatch error names %s"), Ok(_) => assert!(false, "mismatch expected") }' % (
+                    tr, m, variant_concrete(variants[0], 1), variant_concrete(variants[-1], 5), m, m))
+            if units:
+                checks.append('        match <E as core::ops::%s>::%s(E::%s, E::%s) { Err(e) => assert!(displays_as(&e, "Cannot %s() unit variants"), "unit error names %s"), Ok(_) => assert!(false, "unit error expected") }' % (
+                    tr, m, units[0][0], units[0][0], m, m))
+            if checks and error_text:
+                proofs.append("""    #[kani::proof]
+    #[kani::unwind(50)]
+    fn ob_%s_error_text() {
+%s
+    }""" % (m, "\n".join(checks)))
+                hs.append(Harness("ob_%s_error_text" % m, "the mismatch / unit error returned by `%s` displays the operation name `%s()`" % (sym, m),
+                                  bounded="concrete operands; Display into a 48-byte sink, loops unwound 50", fn=fnbase % (tr, m)))
     else:
         for tr, m, sym in UN_OPS:
             derives.append(tr)
@@ -444,6 +561,15 @@ pub fn post_%(m)s(a: E, r: &%(rty)s) -> bool {
     }''' % dict(m=m, tr=tr, rty=rty, covers="\n".join(covers)))
             hs.append(Harness("ob_" + m, "forall a: E (variant symbolic). %sa maps every field of the active variant%s" % (
                 sym, " (Ok), unit variant => Err(UnitError)" if has_unit else ""), fn=fnbase % (tr, m), cover_min=len(covers)))
+            units = [v for v in variants if v[1] == "unit"]
+            if units and error_text:
+                proofs.append("""    #[kani::proof]
+    #[kani::unwind(50)]
+    fn ob_%s_error_text() {
+        match <E as core::ops::%s>::%s(E::%s) { Err(e) => assert!(displays_as(&e, "Cannot %s() unit variants"), "unit error names %s"), Ok(_) => assert!(false, "unit error expected") }
+    }""" % (m, tr, m, units[-1][0], m, m))
+                hs.append(Harness("ob_%s_error_text" % m, "the unit error returned by `%s` displays the operation name `%s()`" % (sym, m),
+                                  bounded="concrete operand; Display into a 48-byte sink, loops unwound 50", fn=fnbase % (tr, m)))
 
     title = "#[derive(%s)] %senum E { %s }" % (", ".join(derives), " ".join(attrs) + (" " if attrs else ""),
                                               ", ".join(variant_decl(v) for v in variants))
@@ -487,17 +613,19 @@ mod proofs {
 
 STRUCT_GROUPS = ["add", "mulfwd", "mulscalar", "unary"]
 ENUM_GROUPS = ["add", "mulfwd", "unary"]
-ENUM_MULFWD_ALL = False
+ENUM_MULFWD_ALL = True
 
 
 def family(tier, seed):
     if tier == "quick":
         shapes = [("tuple", "A"), ("tuple", "AB"), ("tuple", "ABA"),
                   ("named", "A"), ("named", "AA"), ("named", "ABC")]
-        enums = ["mixed", "nounit"]
+        generic_shapes = [("tuple", "ABA"), ("named", "AB")]
+        enums = ["mixed", "nounit", "single", "unit_first"]
     else:
         fs = ["A", "AA", "AB", "AAA", "AAB", "ABA", "ABB", "ABC", "CBA"]
         shapes = [(k, f) for k in ("tuple", "named") for f in fs]
+        generic_shapes = [("tuple", "A"), ("tuple", "AA"), ("tuple", "ABA"), ("named", "A"), ("named", "AB"), ("named", "BAB")]
         enums = list(ENUMS)
     progs = []
     first = True
@@ -507,6 +635,12 @@ def family(tier, seed):
             progs.append(struct_program(kind, list(f), g, with_contract=rep, with_control=rep))
             if rep:
                 first = False
+    for kind, f in generic_shapes:
+        for g in STRUCT_GROUPS:
+            progs.append(struct_program(kind, list(f), g, generic=True))
+    progs.append(sum_custom_program("tuple"))
+    if tier != "quick":
+        progs.append(sum_custom_program("named"))
     for e in enums:
         for g in ENUM_GROUPS:
             # impl/doc/mul.md: "Deriving `Mul` for enums is not (yet) supported, except when you use `#[mul(forward)]`", but
@@ -515,7 +649,8 @@ def family(tier, seed):
             # `/expansion` obligation is the finding. The generator for the others is kept (ENUM_MULFWD_ALL) for when it is fixed.
             if g == "mulfwd" and e != "mixed" and not ENUM_MULFWD_ALL:
                 continue
-            progs.append(enum_program(e, g))
+            # thorough only: the errors name the operation (fmt machinery: ~30-150 s of symbolic execution per harness)
+            progs.append(enum_program(e, g, error_text=(tier != "quick" and e == "mixed")))
     return Family(
         "C10", progs, common_src=COMMON,
         kani_flags=["-Z", "function-contracts"], unwind=5,
@@ -531,8 +666,10 @@ def family(tier, seed):
         trusted_base=["the probe operand types TagA/TagB/TagC/Scalar of common.rs: `mix`/`un` are the field type's own operators and the oracle of every post-condition",
                       "core::mem::discriminant as the definition of 'same variant'", "std's #[derive(PartialEq, Clone, Copy)] on the generated types"],
         assumptions=["Sum/Product: the iterator is `[T; 3]::into_iter().take(n)`, n <= 3 symbolic, unwind 5 with unwinding assertions on (bounded obligations, not counted as proved)",
-                     "kani::assume(n <= 3) in ob_sum / ob_product only"],
+                     "kani::assume(n <= 3) in ob_sum / ob_product only",
+                     "ob_*_error_text (thorough, enum `mixed` only): concrete operands, expected text = the Display impls documented in src/add.rs / src/ops.rs (bounded, not counted as proved)",
+                     "the probes' `op=` is defined as `*self = *self op rhs`, i.e. the field type is one for which `a op= b` and `a = a op b` agree (the property's `*Assign` clause presupposes this)"],
         rule="one program per (type definition, derive group); per program one obligation per derived trait, quantifying over every operand value "
              "(and, for enums, every pair of variants); distinct = harnesses discharged",
-        bounded_note="ob_sum / ob_product: iterator length <= 3",
+        bounded_note="ob_sum / ob_product: iterator length <= 3; ob_*_error_text: concrete operands, loops unwound 50",
     )
